@@ -119,7 +119,8 @@ for _pid, _rule in (
             "points, single-byte corruptions of header/control bytes, appended junk, random strings; distinct = distinct request"),
 ):
     PROPS[_pid] = {
-        "lean": IMG_LEAN + [f"CocoVerif.Props.{_pid}"] + (["CocoVerif.Props.C19Bytes", "CocoVerif.Props.C19Rle"] if _pid == "C19" else []),
+        "lean": IMG_LEAN + [f"CocoVerif.Props.{_pid}"] + (["CocoVerif.Props.C19Bytes", "CocoVerif.Props.C19Rle"] if _pid == "C19" else [])
+                + (["CocoVerif.Props.C16Art"] if _pid == "C16" else []),
         "lean_extra": ["CocoVerif.Props.Lemmas.Img", "CocoVerif.Model.Img", "CocoVerif.Spec.Img"],
         "suites": [{"name": "img", "relevant": IMG_RELEVANT[_pid], "oracle": OI.ORACLES[_pid],
                     "classify": img_classify}],
@@ -569,6 +570,12 @@ PROPS["C20"] = {
     "assumptions": ["start indices >= 1 (Color BASIC raises ?FC ERROR below 1)"],
 }
 
+# C12 for the decoders' command lines: the same bytes whatever the I/O arrangement, a pipe filled in pieces included
+PROPS["C12"]["suites"].append({"name": "imgcli", "relevant": lambda c: c["kind"] in ("cli-valid", "cli-fixture", "cli-option"),
+                               "oracle": suite_imgcli.oracle, "classify": suite_imgcli.classify})
+# C08 through the command line: line-end spellings of one file (the cli suite's cli-eol cases)
+PROPS["C08"]["suites"].append({"name": "cli", "relevant": lambda c: c["kind"] == "cli-eol", "oracle": _SC.eol_oracle})
+PROPS["C08"]["lean_extra"] = list(PROPS["C08"]["lean_extra"]) + ["CocoVerif.Model.Cli"]
 # C20 also depends on how the tool calls the helpers: the b09 suite's real outputs are judged by the aliasing rule
 PROPS["C20"]["suites"].append({"name": "b09", "relevant": b09_any, "oracle": OB.c20_alias, "classify": OB.c20_alias_classify})
 PROPS["C20"]["lean_extra"] = list(PROPS["C20"]["lean_extra"]) + B09_LEAN_EXTRA
